@@ -80,6 +80,138 @@ multt = {
         {"name": "result_not_assigned", "find": "x = y;", "replace": ""},
     ]],
 }
+
+# ---------------------------------------------------------------------------------------------------------------------------
+# ROW branches of getBasisInverseColReal / getBasisInverseTimesVecReal / multBasis (unit_dense.cpp, contract_dense.c)
+DENSE = {"cpp": ["unit_dense.cpp"], "c": ["contract_dense.c"]}
+HELPERS_D = HELPERS + [acc("rowVectorRealInternal", r"const\s+SVectorBase<R>&", r"int\s+i", must=[r"return _realLP->rowVector\(i\);"])]
+NEG = "(1LL<<50)"
+EXP_COL = "((v_bind>=0) ? v_kj+(g_scale ? v_cexp : 0) : v_dot+%s+(g_scale ? -v_rexp : 0))" % NEG
+binvcol = dict(DENSE, **{
+    "name": "getBasisInverseColReal_row",
+    "function": "SoPlexBase<R>::getBasisInverseColReal(int c, R* coef, int* inds, int* ninds, bool unscale)  [src/soplex.hpp, ROW-representation branch]",
+    "defines": {"INST_BINVCOL_ROW": "", "SLICE": "\"getBasisInverseColReal_row.inc\""},
+    "harness": "h_binvcol_row", "enforce": "w_binvcol_row",
+    "slices": HELPERS_D + [{"as": "getBasisInverseColReal_row.inc", "file": HPP,
+                            "region_start": r"// @todo should rhs be a reference\?\s*int\* bind = nullptr;\s*int index;",
+                            "region_end": r"\}\s*return true;\s*\}\s*/// computes dense solution of basis matrix",
+                            "must_contain": [r"getBasisInd\(bind\);", r"if\(!_solver\.isRowBasic\(c\)\)", r"int scaleExp = _scaler->getRowScaleExp\(c\);",
+                                             r"_solver\.basis\(\)\.coSolve\(x, rhs\);", r"coef\[i\] = - \(_solver\.rowVector\(idx\) \* x\);",
+                                             r"coef\[i\] = spxLdexp\(coef\[i\], -_scaler->getRowScaleExp\(idx\)\);", r"spx_free\(bind\);\s*$"]}],
+    "loops": [
+        {"function": r"H::body\(this\)", "loop": 0, "locals": [["i", "LOC_A"]],
+         "invariants": ["0<=i && i<=g_n", "gp_coef[g_p]==((g_p<i && v_bind<0 && -v_bind-1==g_c) ? 1 : 0)"],
+         "assigns": ["i", "__CPROVER_object_whole(gp_coef)"], "decreases": "g_n-i"},
+        {"function": r"H::body\(this\)", "loop": 1, "locals": [["k", "LOC_B"], "index"],
+         "invariants": ["0<=k && k<=g_nc", "(!g_cin) || k<=g_cw"],
+         "assigns": ["k", "index"], "decreases": "g_nc-k"},
+        {"function": r"H::body\(this\)", "loop": 2, "locals": [["j", "LOC_C"]],
+         "invariants": ["0<=j && j<=g_n", "gp_coef[g_p]==((g_p<j) ? %s : 0)" % EXP_COL],
+         "assigns": ["j", "__CPROVER_object_whole(gp_coef)", "g_dot_hits"], "decreases": "g_n-j"},
+    ],
+    "min_obligations": 100, "tier": "quick",
+    "mutants": [dict(m, slice="getBasisInverseColReal_row.inc") for m in [
+        {"name": "old_defect_b1c8e0b", "regex": True,
+         "find": r"int scaleExp = _scaler->getRowScaleExp\(c\);(.*?)coef\[i\] = - \(_solver\.rowVector\(idx\) \* x\);\s*if\(unscale && _solver\.isScaled\(\)\)\s*coef\[i\] = spxLdexp\(coef\[i\], -_scaler->getRowScaleExp\(idx\)\);",
+         "replace": "int scaleExp = -_scaler->getRowScaleExp(index);\\1if(unscale && _solver.isScaled())\n               {\n                  DSVectorBase<R> r_unscaled(numCols());\n                  _solver.getRowVectorUnscaled(idx, r_unscaled);\n                  coef[i] = - (r_unscaled * x);\n               }\n               else\n                  coef[i] = - (_solver.rowVector(idx) * x);\n\n               if(unscale && _solver.isScaled())\n                  coef[i] = spxLdexp(coef[i], _scaler->getRowScaleExp(idx));"},
+        {"name": "old_rhs_exponent", "find": "int scaleExp = _scaler->getRowScaleExp(c);", "replace": "int scaleExp = -_scaler->getRowScaleExp(index);"},
+        {"name": "old_slack_out_sign", "find": "coef[i] = spxLdexp(coef[i], -_scaler->getRowScaleExp(idx));", "replace": "coef[i] = spxLdexp(coef[i], _scaler->getRowScaleExp(idx));"},
+        {"name": "old_removed_loop_first_iteration_restored", "find": "_solver.basis().coSolve(x, rhs);",
+         "replace": "_solver.basis().coSolve(x, rhs);\n               x.setup();\n               int size = x.size();\n\n               if(0 < size)\n               {\n                  int i = 0;\n                  int idx = bind[x.index(i)];\n\n                  if(idx < 0)\n                  {\n                     idx = -idx - 1;\n                     scaleExp = _scaler->getRowScaleExp(idx);\n                  }\n                  else\n                     scaleExp = - _scaler->getColScaleExp(idx);\n\n                  spxLdexp(x.value(i), scaleExp);\n               }"},
+        {"name": "rhs_sign", "find": "int scaleExp = _scaler->getRowScaleExp(c);", "replace": "int scaleExp = -_scaler->getRowScaleExp(c);"},
+        {"name": "slack_not_negated", "find": "coef[i] = - (_solver.rowVector(idx) * x);", "replace": "coef[i] = (_solver.rowVector(idx) * x);"},
+        {"name": "slack_wrong_row", "find": "coef[i] = - (_solver.rowVector(idx) * x);", "replace": "coef[i] = - (_solver.rowVector(i) * x);"},
+        {"name": "wrong_kernel", "find": "_solver.basis().coSolve(x, rhs);", "replace": "_solver.basis().solve(x, rhs);"},
+        {"name": "col_out_row_exp", "find": "coef[i] = spxLdexp(x[idx], _scaler->getColScaleExp(idx));", "replace": "coef[i] = spxLdexp(x[idx], _scaler->getRowScaleExp(idx));"},
+        {"name": "col_out_position", "find": "coef[i] = x[idx];", "replace": "coef[i] = x[i];"},
+        {"name": "unit_col_index_transform", "find": "-bind[i] - 1 == c", "replace": "-bind[i] == c"},
+        {"name": "search_col_ids", "find": "_solver.basis().baseId(k).isSPxRowId())", "replace": "_solver.basis().baseId(k).isSPxColId())"},
+        {"name": "unscaled_rhs_row_number", "find": "_solver.basis().coSolve(x, _solver.unitVector(index));", "replace": "_solver.basis().coSolve(x, _solver.unitVector(c));"},
+        {"name": "memset_dropped", "find": "memset(coef, 0, (unsigned int)numRows() * sizeof(Real));", "replace": ""},
+    ]],
+})
+EXP_BTV = "((v_bind>=0) ? v_kj+(g_scale ? v_cexp : 0) : v_sub)"
+btvrow = dict(DENSE, **{
+    "name": "getBasisInverseTimesVecReal_row",
+    "function": "SoPlexBase<R>::getBasisInverseTimesVecReal(R* rhs, R* sol, bool unscale)  [src/soplex.hpp, opening declarations + ROW-representation branch + common tail]",
+    "defines": {"INST_BTV_ROW": "", "SLICE": "\"getBasisInverseTimesVecReal_row.inc\""},
+    "harness": "h_btv_row", "enforce": "w_btv_row",
+    "slices": HELPERS_D + [
+        {"as": "binvtv_decl.inc", "file": HPP, "region_start": r"VectorBase<R> v\(numRows\(\), rhs\);\s*VectorBase<R> x\(numRows\(\), sol\);", "region_end": r"if\(!hasBasis\(\)\)",
+         "must_contain": [r"^VectorBase<R> v\(numRows\(\), rhs\);\s*VectorBase<R> x\(numRows\(\), sol\);\s*$"]},
+        {"as": "getBasisInverseTimesVecReal_row.inc", "file": HPP,
+         "region_start": r"DSVectorBase<R> rowrhs\(numCols\(\)\);\s*SSVectorBase<R> y\(numCols\(\), this->tolerances\(\)\);",
+         "region_end": r"\}\s*std::copy\(v\.vec\(\)\.begin\(\), v\.vec\(\)\.end\(\), rhs\);",
+         "must_contain": [r"getBasisInd\(bind\);", r"rowrhs\.add\(i, spxLdexp\(v\[idx\], scaleExp\)\);", r"_solver\.basis\(\)\.coSolve\(y, rowrhs\);",
+                          r"R act = rowVectorRealInternal\(index\) \* VectorBase<R>\(numCols\(\), y\.get_ptr\(\)\);", r"x\[i\] = v\[index\] - act;", r"spx_free\(bind\);\s*$"]},
+        {"as": "binvtv_tail.inc", "file": HPP, "region_start": r"std::copy\(v\.vec\(\)\.begin\(\), v\.vec\(\)\.end\(\), rhs\);",
+         "region_end": r"\}\s*/// multiply with basis matrix; B \* vec \(inplace\)",
+         "must_contain": [r"std::copy\(x\.vec\(\)\.begin\(\), x\.vec\(\)\.end\(\), sol\);\s*return true;\s*$"]}],
+    "loops": [
+        {"function": r"H::body\(this\)", "loop": 0, "locals": [["i", "LOC_A"], "scaleExp", "idx"],
+         "invariants": ["0<=i && i<=g_nc && 0<=*gp_ds_used && *gp_ds_used<=i",
+                        "(g_b<i && v_binfo<0) ? (g_addb==1 && 0<=g_add_pos && g_add_pos<*gp_ds_used && g_q==g_add_pos && gp_dsi[g_add_pos]==g_b && gp_dsv[g_add_pos]==v_rhs_r2+(g_scale ? v_rexpb : 0)) : (g_addb==0)"],
+         "assigns": ["i", "scaleExp", "idx", "*gp_ds_used", "*gp_ds_gpos", "__CPROVER_object_whole(gp_dsv)", "__CPROVER_object_whole(gp_dsi)", "g_addb", "v_add", "g_add_pos", "g_q"],
+         "decreases": "g_nc-i"},
+        {"function": r"H::body\(this\)", "loop": 1, "locals": [["j", "LOC_B"], "scaleExp"],
+         "invariants": ["0<=j && j<=g_n", "(g_p<j) ? gp_s2[g_p]==%s : 1" % EXP_BTV],
+         "assigns": ["j", "scaleExp", "__CPROVER_object_whole(gp_s2)", "g_dot_hits", "g_sub_hits"], "decreases": "g_n-j"},
+    ],
+    "min_obligations": 100, "tier": "quick",
+    "mutants": [
+        {"name": "old_defect_ea8ed1e", "slice": "getBasisInverseTimesVecReal_row.inc", "regex": True,
+         "find": r"R act = rowVectorRealInternal\(index\) \* VectorBase<R>\(numCols\(\), y\.get_ptr\(\)\);(\s*if\(adaptScaling\)\s*\{\s*scaleExp = -_scaler->getRowScaleExp\(index\);\s*)act = spxLdexp\(act, scaleExp\);(\s*\})\s*x\[i\] = v\[index\] - act;",
+         "replace": "x[i] = v[index] - (rowVectorRealInternal(index) * VectorBase<R>(numCols(), y.get_ptr()));\\1x[i] = spxLdexp(x[i], scaleExp);\\2"},
+        {"name": "seeded_rhs_read_at_basis_position", "slice": "getBasisInverseTimesVecReal_row.inc", "find": "x[i] = v[index] - act;", "replace": "x[i] = v[i] - act;"},
+        {"name": "rhs_scale_sign", "slice": "getBasisInverseTimesVecReal_row.inc", "find": "scaleExp = _scaler->getRowScaleExp(idx);", "replace": "scaleExp = -_scaler->getRowScaleExp(idx);"},
+        {"name": "rhs_entry_at_position", "slice": "getBasisInverseTimesVecReal_row.inc", "find": "rowrhs.add(i, v[_solver.number(id)]);", "replace": "rowrhs.add(i, v[i]);"},
+        {"name": "rhs_index_row_number", "slice": "getBasisInverseTimesVecReal_row.inc", "find": "rowrhs.add(i, spxLdexp(v[idx], scaleExp));", "replace": "rowrhs.add(idx, spxLdexp(v[idx], scaleExp));"},
+        {"name": "act_scale_sign", "slice": "getBasisInverseTimesVecReal_row.inc", "find": "scaleExp = -_scaler->getRowScaleExp(index);", "replace": "scaleExp = _scaler->getRowScaleExp(index);"},
+        {"name": "col_out_row_exp", "slice": "getBasisInverseTimesVecReal_row.inc", "find": "scaleExp = _scaler->getColScaleExp(index);", "replace": "scaleExp = _scaler->getRowScaleExp(index);"},
+        {"name": "col_out_position", "slice": "getBasisInverseTimesVecReal_row.inc", "find": "x[i] = y[index];", "replace": "x[i] = y[i];"},
+        {"name": "wrong_kernel", "slice": "getBasisInverseTimesVecReal_row.inc", "find": "_solver.basis().coSolve(y, rowrhs);", "replace": "_solver.basis().solve(y, rowrhs);"},
+        {"name": "col_ids_in_rhs", "slice": "getBasisInverseTimesVecReal_row.inc", "find": "if(id.isSPxRowId())", "replace": "if(id.isSPxColId())"},
+        {"name": "index_transform", "slice": "getBasisInverseTimesVecReal_row.inc", "find": "index = -index - 1;", "replace": "index = -index;"},
+        {"name": "sol_from_v", "slice": "binvtv_tail.inc", "find": "std::copy(x.vec().begin(), x.vec().end(), sol);", "replace": "std::copy(v.vec().begin(), v.vec().end(), sol);"},
+    ],
+})
+multrow = dict(DENSE, **{
+    "name": "multBasis_row",
+    "function": "SoPlexBase<R>::multBasis(R* vec, bool unscale)  [src/soplex.hpp, ROW-representation branch]",
+    "defines": {"INST_MULT_ROW": "", "SLICE": "\"multBasis_row.inc\""},
+    "harness": "h_mult_row", "enforce": "w_mult_row",
+    "slices": HELPERS_D + [{"as": "multBasis_row.inc", "file": HPP,
+                            "region_start": r"int colbasisdim = numRows\(\);\s*VectorBase<R> y\(colbasisdim\);\s*y\.clear\(\);",
+                            "region_end": r"\}\s*return true;\s*\}\s*/// multiply with transpose of basis matrix",
+                            "must_contain": [r"getBasisInd\(bind\);", r"y\[index\] \+= x\[i\];", r"y\.multAdd\(x\[i\], col\);", r"else\s*y\.multAdd\(x\[i\], _solver\.colVector\(index\)\);",
+                                             r"x = y;\s*std::copy\(x\.vec\(\)\.begin\(\), x\.vec\(\)\.end\(\), vec\);\s*$"]}],
+    "loops": [
+        {"function": r"H::body\(this\)", "loop": 0, "locals": ["i", "index", "colbasisdim"],
+         "invariants": ["0<=i && i<=colbasisdim && colbasisdim==g_n",
+                        "g_foreign==0 && g_clear_calls==1 && 0<=g_contribs && g_contribs<=i && -1<=g_cur && g_cur<g_n",
+                        "g_has_k==((g_k<i && v_xk!=(1LL<<41)) ? 1 : 0)",
+                        "gp_s1[g_p]==v_acc && gp_s2[g_k]==v_xk"],
+         "assigns": ["i", "index", "__CPROVER_object_whole(gp_s1)", "g_cur", "g_contribs", "g_foreign", "g_has_k", "v_acc"],
+         "decreases": "colbasisdim-i"},
+    ],
+    "min_obligations": 100, "tier": "quick",
+    "mutants": [dict(m, slice="multBasis_row.inc") for m in [
+        {"name": "old_defect_8f7e90c", "regex": True,
+         "find": r"VectorBase<R> y\(colbasisdim\);(.*?)y\[index\] \+= x\[i\];(.*?)y\.multAdd\(x\[i\], col\);(\s*\})\s*else\s*y\.multAdd\(x\[i\], _solver\.colVector\(index\)\);",
+         "replace": "DSVectorBase<R> y(colbasisdim);\\1y.add(x[i] * UnitVectorBase<R>(index));\\2y.add(x[i] * col);\\3\n\n               y.add(x[i] * _solver.colVector(index));"},
+        {"name": "old_missing_else", "regex": True, "find": r"else\s*y\.multAdd\(x\[i\], _solver\.colVector\(index\)\);", "replace": "y.multAdd(x[i], _solver.colVector(index));"},
+        {"name": "old_last_contribution_only", "find": "y[index] += x[i];", "replace": "y[index] = x[i];"},
+        {"name": "scaled_col_when_unscaling", "find": "y.multAdd(x[i], col);", "replace": "y.multAdd(x[i], _solver.colVector(index));"},
+        {"name": "unscaled_col_always", "find": "if(unscale && _solver.isScaled())", "replace": "if(unscale)"},
+        {"name": "index_transform", "find": "index = -index - 1;", "replace": "index = -index;"},
+        {"name": "slack_cell_position", "find": "y[index] += x[i];", "replace": "y[i] += x[i];"},
+        {"name": "wrong_scalar", "find": "y.multAdd(x[i], _solver.colVector(index));", "replace": "y.multAdd(x[0], _solver.colVector(index));"},
+        {"name": "slack_test_flipped", "find": "if(index < 0)", "replace": "if(index <= 0)"},
+        {"name": "off_by_one", "find": "for(int i = 0; i < colbasisdim; ++i)", "replace": "for(int i = 1; i < colbasisdim; ++i)"},
+        {"name": "clear_dropped", "find": "y.clear();", "replace": ""},
+        {"name": "result_not_assigned", "find": "x = y;", "replace": ""},
+    ]],
+})
 base = json.load(open(os.path.join(os.path.dirname(os.path.abspath(__file__)), "..", "basisinv", "unit.json")))
 unit = {
     "property": ["C05"],
@@ -111,7 +243,7 @@ unit = {
         "assumed type invariant of the row basis (C04): basis ids are valid and pairwise different (at the ghost row: at most one position holds its row id)",
         "numRows, numCols, SPxScaler::getColScaleExp/getRowScaleExp are real bodies (sliced)",
     ],
-    "instances": [binvrow, multt],
+    "instances": [binvrow, multt, binvcol, btvrow, multrow],
 }
 json.dump(unit, open(os.path.join(os.path.dirname(os.path.abspath(__file__)), "unit.json"), "w"), indent=1)
 print("wrote unit.json with", len(unit["instances"]), "instances")
